@@ -34,6 +34,10 @@ def worlds(tier):
         w.W("cond2-EDF", w.fixed_times(w.cond2()), w.C1, "EDF", split=6, weight=10),
         w.W("cond3-plus-plain-graph-EDF-enforce", w.cond3(release=0, deadline="sym") + [w.G("H", ["P"], [], release=0, deadline="sym")], w.C2, "EDF", enforce_deadlines=True, split=8, weight=60,
             tasks=dict(small(("C", "a", "b", "c", "J", "P")))),
+        w.W("fork-2cpu-EDF-per-task-deadlines", w.fork(release=0), w.C2, "EDF", split=6, weight=30,
+            tasks={"A": {"strategies": [{"rt": RT3}]}, "B": {"strategies": [{"rt": RT3}], "deadline": "sym"}, "C": {"strategies": [{"rt": RT3}], "deadline": "sym"}}),
+        w.W("indep2-2cpu-EDF-preemptive-second-arrives-while-first-runs", [w.G("G0", ["T0"], [], release=0, deadline=10 ** 6), w.G("G1", ["T1"], [], release=["sym", 0, 3], deadline=10 ** 6)], w.C2, "EDF",
+            preemptive=True, split=6, weight=20, tasks=small(("T0", "T1"))),
         w.W("join-2cpu-LSF", w.join(), w.C2, "LSF", split=6, weight=20),
         w.W("chain2-havoc-drop-skipped", w.fixed_times(w.chain(2)), w.C1, "HAVOC", split=6, drop_skipped=True, havoc=dict(hv, release_taskgraphs=True), tasks=small(("T0", "T1"))),
         w.W("indep2-havoc-unplaced-then-placed", w.fixed_times(w.indep(2)), w.C2, "HAVOC", split=6, havoc=dict(hv, future=False, first_pool_only=True), tasks=small(("T0", "T1"))),
